@@ -286,6 +286,30 @@ def traced_runs(res, args):
                     for k in e['counts']:
                         if '.' in k:
                             called.add(k.split('.')[0])
+            # scheduling as the real run built it ('passes' events)
+            must_on = {c for c, v in enabled.items()
+                       if v and not may_disable.get(group_of[c], False)}
+            for e in run.events:
+                if e['ev'] != 'passes':
+                    continue
+                sched = {c for ps in e['passes'] for c in ps}
+                res.count('pass_lists_of_real_runs_checked')
+                if sched - may_on:
+                    res.violation(
+                        f'disabled-mutator-scheduled:{sorted(sched - may_on)[0]}',
+                        f'{sorted(sched - may_on)} scheduled by a real '
+                        f'{e["strategy"]} run although disabled by '
+                        f'{list(seq)}', {'options': opts_run, 'input': text})
+                if e['strategy'] == 'hierarchical':
+                    miss = must_on - set(e['passes'][-1])
+                else:
+                    miss = must_on - sched - {'BinaryReduction'}
+                if miss:
+                    res.violation(
+                        f'enabled-mutator-missing-in-run:{sorted(miss)[0]}',
+                        f'{sorted(miss)} enabled by {list(seq)} but not '
+                        f'scheduled by the real {e["strategy"]} run',
+                        {'options': opts_run, 'input': text})
             res.count('mutator_classes_called', len(called))
             for c in called:
                 res.add_set('classes_called', c)
